@@ -438,17 +438,35 @@ func c16AllTypeNames() []string {
 	return out
 }
 
+// c16NamesNoComponent: the value is neither null-like nor a type declaration of the class that decodes. Used only to
+// SELECT the values written into files (kind 3) - independently of what the holder under test answers, so that a
+// holder that starts to accept (or skip) more values does not shrink the family; the verdict is the model's.
+func c16NamesNoComponent(cl *c16Class, shape string) bool {
+	node := c16ShapeNode(shape)
+	if node == nil {
+		return false
+	}
+	node = c16ResolveAlias(node)
+	if node.ShortTag() == "!!null" {
+		return false
+	}
+	if len(node.Content) >= 2 && node.Content[0].Kind == yaml.ScalarNode && node.Content[0].Value == "type" && cl.dec(node) {
+		return false
+	}
+	return true
+}
+
 // c16HolderGen emits the holder families. emit(class, kind, S, Z).
 func c16HolderGen(g *Gen, dir string, emit func(class string, kind int, toks [][]byte, z []int64)) {
 	allTypes := c16AllTypeNames()
 	// ---- kind 2: every shape for every class, decoded directly ----
-	rejected := map[string][]string{} // class -> shapes the real code does not accept (error value or panic)
+	rejected := map[string][]string{} // class -> values that name no component of the class (selection only: see c16NamesNoComponent)
 	nhand := map[string]int{}
 	for i := range c16Classes {
 		cl := &c16Classes[i]
 		shapes := c16Shapes(cl, allTypes, g.Thorough())
 		nhand[cl.name] = len(shapes)
-		for k := 0; k < g.Pick(40, 6000); k++ {
+		for k := 0; k < g.Pick(40, 2000); k++ {
 			shapes = append(shapes, c16RandomShape(g.R, 0, allTypes))
 		}
 		seen := map[string]bool{}
@@ -461,16 +479,15 @@ func c16HolderGen(g *Gen, dir string, emit func(class string, kind int, toks [][
 			if !ok {
 				continue
 			}
-			out, _ := c16HolderDirect(cl, sh)
 			emit("holder-"+cl.name, 2, toks, nil)
-			if k < nhand[cl.name] && (strings.HasPrefix(out, "herr") || strings.HasPrefix(out, "panic")) {
+			if k < nhand[cl.name] && c16NamesNoComponent(cl, sh) {
 				rejected[cl.name] = append(rejected[cl.name], sh)
 			}
 		}
 	}
 	// ---- kind 3: the rejected shapes at every typed component site of the base configurations ----
 	// quick tier: the core shapes at every site of every base, all hand-written shapes at the first site of each class of the
-	// minimal base; thorough: everything everywhere
+	// minimal base; thorough: all values at the first site of each class of every base, a rotating quarter of them at the other sites
 	for id := int64(0); id < c16NumBases; id++ {
 		base := c16BaseByID(dir, id)
 		firstOfClass := map[string]bool{}
@@ -478,8 +495,11 @@ func c16HolderGen(g *Gen, dir string, emit func(class string, kind int, toks [][
 			cl := c16ClassByName(cname)
 			first := !firstOfClass[cname]
 			firstOfClass[cname] = true
-			for _, sh := range rejected[cname] {
+			for k, sh := range rejected[cname] {
 				if !g.Thorough() && !c16CoreShapes[sh] && !(id == 1 && first) {
+					continue
+				}
+				if g.Thorough() && !c16CoreShapes[sh] && !first && (k+at)%4 != 0 {
 					continue
 				}
 				toks, ok := c16HolderTokens(sh, cl)
@@ -607,8 +627,7 @@ func c16HolderCorpus() []string {
 				continue
 			}
 			out = append(out, (&Case{Kind: 2, S: toks}).Line())
-			res, _ := c16HolderDirect(cl, sh)
-			if first > 0 && strings.HasPrefix(res, "herr") {
+			if first > 0 && c16NamesNoComponent(cl, sh) {
 				out = append(out, (&Case{Kind: 3, S: toks, Z: []int64{1, int64(first)}}).Line())
 			}
 		}
